@@ -415,7 +415,15 @@ func (g *gen) ordMarker(id string, t *TypeX) Marker {
 	return Marker{ID: id, Expr: bs[g.rng.Intn(len(bs))], HasExpr: true}
 }
 
-var enumStrPools = [][]string{{"New  York", "Boston"}, {"a\tb", "a b"}, {"x   y  z"}, {"a", "b", "c"}, {"red", "green", "blue"}, {"A", "a"}, {"x"}, {"hello world", "x y"}, {"café", "日本"}, {"a", "a", "b"}, {"1", "2"}, {"pending", "active", "Active", "done", "x", "y", "z", "w"}}
+func manyItems(n int) []string {
+	var out []string
+	for i := 0; i < n; i++ {
+		out = append(out, fmt.Sprintf("item%02d", i))
+	}
+	return out
+}
+
+var enumStrPools = [][]string{manyItems(9), manyItems(12), manyItems(30), {"New  York", "Boston"}, {"a\tb", "a b"}, {"x   y  z"}, {"a", "b", "c"}, {"red", "green", "blue"}, {"A", "a"}, {"x"}, {"hello world", "x y"}, {"café", "日本"}, {"a", "a", "b"}, {"1", "2"}, {"pending", "active", "Active", "done", "x", "y", "z", "w"}}
 
 func (g *gen) enumMarker(t *TypeX) Marker {
 	u := t.Underlying()
@@ -1174,5 +1182,81 @@ func (g *gen) corpusC07(id string) []*Scenario {
 	g.sc = sc2
 	sc2.Decls = []*Decl{d2}
 	sc2.Values["Deep"] = g.structValues(d2, 8)
-	return []*Scenario{sc, sc2}
+	// marked fields AFTER an unmarked nested struct, inside a nested struct
+	d3 := &Decl{Name: "After", Fields: []*Field{
+		{Names: []string{"ID"}, Type: stringT, Markers: []Marker{req}},
+		{Names: []string{"Customer"}, Nested: []*Field{
+			{Names: []string{"Meta"}, Nested: []*Field{{Names: []string{"Note"}, Type: stringT}}},
+			{Names: []string{"Name"}, Type: stringT, Markers: []Marker{req}},
+			{Names: []string{"Age"}, Type: basicT("int", "Int"), Markers: []Marker{{ID: "gt", Expr: "0", HasExpr: true}}}}},
+	}}
+	sc3 := newScenario(id + "after")
+	g.sc = sc3
+	sc3.Decls = []*Decl{d3}
+	sc3.Values["After"] = g.structValues(d3, 8)
+	// a pointer to an anonymous struct that itself contains a nested struct with markers: the generator does not
+	// look through the pointer (nothing inside is validated) — and a nil pointer must stay harmless
+	ptrT := &TypeX{Kind: "ptr", Src: "*struct {\n\t\tNote string\n\n\t\tOwner struct {\n\t\t\t//govalid:required\n\t\t\tName string\n\t\t}\n\t}"}
+	ptr2T := &TypeX{Kind: "ptr", Src: "*struct {\n\t\t//govalid:required\n\t\tTitle string\n\n\t\tOwner *struct {\n\t\t\t//govalid:gt=0\n\t\t\tAge int\n\t\t}\n\t}"}
+	d4 := &Decl{Name: "PtrDeep", Fields: []*Field{
+		{Names: []string{"ID"}, Type: stringT, Markers: []Marker{req}},
+		{Names: []string{"Meta"}, Type: ptrT},
+		{Names: []string{"Info"}, Type: ptr2T},
+	}}
+	sc4 := newScenario(id + "ptr")
+	g.sc = sc4
+	sc4.Decls = []*Decl{d4}
+	sc4.Values["PtrDeep"] = g.structValues(d4, 6)
+	return []*Scenario{sc, sc2, sc3, sc4}
+}
+
+// famBounds: one numeric field carrying a lower AND an upper bound marker (both source orders; bounds
+// ordered, equal and contradictory), also with all four markers; floats get NaN through the value lattice.
+func (g *gen) famBounds(id string, types []*TypeX) []*Scenario {
+	var out []*Scenario
+	var cur *Scenario
+	n := 0
+	for _, t := range types {
+		for _, pair := range [][2]string{{"gte", "lte"}, {"gt", "lt"}, {"gt", "lte"}, {"gte", "lt"}} {
+			for variant := 0; variant < 4; variant++ {
+				lo, hi := "1", "100"
+				switch variant {
+				case 1:
+					lo, hi = "10", "10"
+				case 2:
+					lo, hi = "10", "5" // contradictory: every value violates at least one, values in between violate both
+				case 3:
+					lo, hi = "0", "0"
+				}
+				ms := []Marker{{ID: pair[0], Expr: lo, HasExpr: true}, {ID: pair[1], Expr: hi, HasExpr: true}}
+				if g.rng.Intn(2) == 0 {
+					ms[0], ms[1] = ms[1], ms[0]
+				}
+				if variant == 0 && g.rng.Intn(2) == 0 {
+					ms = []Marker{{ID: "gt", Expr: "0", HasExpr: true}, {ID: "gte", Expr: "1", HasExpr: true}, {ID: "lt", Expr: "100", HasExpr: true}, {ID: "lte", Expr: "99", HasExpr: true}}
+				}
+				if cur == nil || len(cur.Decls) >= 12 {
+					if cur != nil {
+						out = append(out, cur)
+					}
+					cur = newScenario(fmt.Sprintf("%s%03d", id, len(out)))
+					g.sc = cur
+				}
+				n++
+				d := &Decl{Name: fmt.Sprintf("B%d", n)}
+				f := &Field{Names: []string{"F"}, Type: t, Markers: ms}
+				if g.rng.Intn(3) == 0 {
+					d.Fields = []*Field{{Names: []string{"In"}, Nested: []*Field{f}}}
+				} else {
+					d.Fields = []*Field{f}
+				}
+				cur.Decls = append(cur.Decls, d)
+				cur.Values[d.Name] = g.structValues(d, 0)
+			}
+		}
+	}
+	if cur != nil {
+		out = append(out, cur)
+	}
+	return out
 }
